@@ -153,9 +153,12 @@ class FortranExpressionMapper(_LeftNestedPowerMixin, StringifyMapper):
                 enclosing_prec, PREC_COMPARISON)
 
     def map_logical_not(self, expr, enclosing_prec):
-        from pymbolic.mapper.stringifier import PREC_UNARY
+        from pymbolic.mapper.stringifier import PREC_POWER, PREC_UNARY
+
+        # ".not. .not. a" is not valid Fortran, the operand needs parentheses
+        # if it is itself a negation.
         return self.parenthesize_if_needed(
-                ".not. " + self.rec(expr.child, PREC_UNARY),
+                ".not. " + self.rec(expr.child, PREC_POWER),
                 enclosing_prec, PREC_UNARY)
 
     def map_logical_or(self, expr, enclosing_prec):
